@@ -224,6 +224,13 @@ pub fn rich_dump(r: &mut Rng, prop: &str, seed: u64, profile: &str, benign_fault
                 *x = 0;
             }
         }
+        if b.modules.len() > 1 && r.chance(1, 3) {
+            // the caller's values legitimately differ from the kernel's (e.g. the program was started
+            // through an explicit loader invocation): entry point inside a library
+            let m = &b.modules[1 + r.below(b.modules.len() as u64 - 1) as usize];
+            d[3] = m.base + m.image.entry_off;
+            tags.push("directauxv-differs".into());
+        }
         opts.direct_auxv = Some(d);
         tags.push("directauxv".into());
     }
@@ -1337,6 +1344,11 @@ fn gen_c18(r: &mut Rng, seed: u64) -> Scenario {
         tags.push("names-at-mapping-end".into());
     }
     let mut opts = Opts { blamed: tid_of(r.below(n as u64) as usize), ..Default::default() };
+    if n > 1 && opts.blamed != PID && r.chance(1, 6) {
+        // the initial thread has exited (pthread_exit in main); its /proc files are those of a zombie
+        b.world.threads[0].zombie = true;
+        tags.push("zombie-leader".into());
+    }
     b.world.cmdline = B(random_blob(r));
     b.world.environ = B(random_blob(r));
     if r.coin() {
